@@ -47,6 +47,8 @@ def run(ctx):
     if rc is None:
         seen = rep["extra"]["seen"]
         need = ["entry:rt", "entry:rt_as_emitter", "entry:core", "entry:macro", "entry:macro_evt", "entry:direct",
+                "entry:macro_lvl", "entry:evt_macro", "entry:span_evt", "entry:metric_evt", "entry:span_guard",
+                "entry:span_macro",
                 "f:and", "f:or", "f:none", "f:opt", "f:ref", "f:box", "f:arc", "f:erased",
                 "e:and", "e:wrap", "e:none", "e:opt", "e:ref", "e:box", "e:arc", "e:erased",
                 "f:assert", "e:assert", "e:wrapfn", "e:rt"]
@@ -71,6 +73,11 @@ def run(ctx):
         "the ambient context is a fixed Ctxt whose current properties are a slice (the thread-local context is C03's subject); "
         "the clock is scripted",
         "blocking_flush is not modelled",
+        "the extent is an input class (absent, point, forward / empty / inverted range) crossed with every entry point; a span "
+        "guard's extent is the range between two scripted clock readings (forward, equal, backwards, no clock); its filter is "
+        "consulted at span start on the span without extent (documented), so span-guard configurations only use filters that "
+        "do not look at the extent; the sample!/metric macros and #[span] attribute forms are not separate entries "
+        "(Metric::new / SpanGuard::new + new_span! stand for them)",
         "a nested Runtime used as a destination is the statement applied again to that runtime (its filter must accept the event "
         "extended by its ambient properties / its clock's reading; its destinations receive that event)",
         "bounded: %s; scenario products, not the full product of all dimensions (see MCEmit.tla ScensFor)"
